@@ -1073,3 +1073,400 @@ Proof.
   - intros p H1 H2. rewrite view_put_key by auto. rewrite under_put_other by auto.
     rewrite view_put_key by auto. apply under_put_other; auto.
 Qed.
+
+(* ================================================================ freshness of bucket ids
+   over whole histories: every id recorded in the bucket index is at most the
+   id counter, keys live only under ids up to the counter, index values are
+   pairwise distinct; CreateBucket allocates counter+1, so the new id's prefix
+   is unused. *)
+
+Definition ctr (m : kvs) : Z := match OMap.get m cbid_key with Some v => be32_dec v | None => 0 end.
+Definition is_index (k : key) : bool :=
+  match strip_prefix bidx k with Some _ => negb (keqb k cbid_key) | None => false end.
+Definition key_id (k : key) : Z := be32_dec (firstn 4 k).
+Definition id_bound : Z := 754974720.   (* 45 * 2^24: below the id spelled "-cbi" and below 'b' *)
+
+Definition live (m : kvs) (id : key) : Prop :=
+  length id = 4%nat /\ 0 <= be32_dec id <= ctr m /\ nth 0 id 0 <> 98.
+
+Definition fresh (m : kvs) : Prop :=
+  0 <= ctr m < id_bound /\
+  (forall k v, In (k, v) m -> is_index k = true ->
+     live m (to_id v) /\ v = to_id v /\ key_id (skipn 4 k) <= ctr m) /\
+  (forall k v, In (k, v) m -> strip_prefix bidx k = None ->
+     (4 <= length k)%nat /\ 0 <= key_id k <= ctr m) /\
+  (forall k1 v1 k2 v2, In (k1, v1) m -> In (k2, v2) m -> is_index k1 = true -> is_index k2 = true ->
+     v1 = v2 -> k1 = k2).
+
+Lemma in_put (m : kvs) k v k' v' : In (k', v') (OMap.put m k v) -> (k' = k /\ v' = v) \/ In (k', v') m.
+Proof.
+  induction m as [|[k1 v1] m IH]; simpl.
+  - intros [[= -> ->]|[]]; auto.
+  - destruct (kcmp k k1); simpl.
+    + intros [[= -> ->]|H]; auto.
+    + intros [[= -> ->]|H]; auto.
+    + intros [H|H]; auto. destruct (IH H); auto.
+Qed.
+
+Lemma in_del (m : kvs) k k' v' : In (k', v') (OMap.del m k) -> In (k', v') m.
+Proof.
+  induction m as [|[k1 v1] m IH]; simpl; auto.
+  destruct (keqb k k1); simpl; [auto|intros [H|H]; auto].
+Qed.
+
+Lemma be32_roundtrip n : 0 <= n < 4294967296 -> be32_dec (be32_enc n) = n.
+Proof.
+  intros H. unfold be32_enc, be32_dec. rewrite (Z.mod_small n) by lia.
+  pose proof (Z.div_mod n 16777216). pose proof (Z.div_mod n 65536). pose proof (Z.div_mod n 256).
+  pose proof (Z.div_mod (n / 65536) 256). pose proof (Z.div_mod (n / 256) 256).
+  assert (n / 65536 / 256 = n / 16777216) by (rewrite Z.div_div by lia; reflexivity).
+  assert (n / 256 / 256 = n / 65536) by (rewrite Z.div_div by lia; reflexivity).
+  pose proof (Z.mod_pos_bound n 256). pose proof (Z.mod_pos_bound (n / 256) 256).
+  pose proof (Z.mod_pos_bound (n / 65536) 256). lia.
+Qed.
+
+Lemma enc_shape n : to_id (be32_enc n) = be32_enc n /\ length (be32_enc n) = 4%nat.
+Proof. unfold be32_enc, to_id. simpl. auto. Qed.
+
+Lemma enc_first n : 0 <= n < id_bound -> nth 0 (be32_enc n) 0 <> 98.
+Proof.
+  intros H. unfold be32_enc, id_bound in *. simpl. rewrite (Z.mod_small n) by lia.
+  assert (n / 16777216 < 45) by (apply Z.div_lt_upper_bound; lia). lia.
+Qed.
+
+Lemma strip_bidx_first k : nth 0 k 0 <> 98 -> strip_prefix bidx k = None.
+Proof.
+  unfold bidx. destruct k as [|a k]; [reflexivity|]. cbn [strip_prefix nth]. intros H.
+  destruct (Z.eqb_spec 98 a) as [E|E]; [exfalso; apply H; auto|reflexivity].
+Qed.
+
+Lemma key_id_app id x : length id = 4%nat -> key_id (id ++ x) = be32_dec id.
+Proof.
+  intros L. unfold key_id. do 5 (destruct id as [|? id]; simpl in L; try discriminate). reflexivity.
+Qed.
+
+Lemma ctr_put_other (m : kvs) k v : k <> cbid_key -> ctr (OMap.put m k v) = ctr m.
+Proof. intros N. unfold ctr. rewrite get_put_other; auto. Qed.
+
+Lemma live_mono m m' id : ctr m <= ctr m' -> live m id -> live m' id.
+Proof. unfold live. intros H (A & B & C). repeat split; auto; lia. Qed.
+
+(* Put under a live bucket id keeps the invariant *)
+Lemma fresh_put m id k v : fresh m -> live m id -> fresh (OMap.put m (id ++ k) v).
+Proof.
+  intros (C0 & I1 & I2 & I3) (L & B & F).
+  assert (NB : strip_prefix bidx (id ++ k) = None).
+  { apply strip_bidx_first. destruct id; simpl in *; [discriminate|auto]. }
+  assert (NC : id ++ k <> cbid_key).
+  { intros E. rewrite E in NB. vm_compute in NB. discriminate. }
+  assert (NI : is_index (id ++ k) = false) by (unfold is_index; rewrite NB; auto).
+  assert (EC : ctr (OMap.put m (id ++ k) v) = ctr m) by (apply ctr_put_other; auto).
+  unfold fresh. rewrite EC. split; auto. split; [|split].
+  - intros k' v' H Hi. apply in_put in H. destruct H as [[-> ->]|H]; [congruence|].
+    destruct (I1 _ _ H Hi) as (Lv & Ev & Pv).
+    split; [eapply live_mono; [|exact Lv]; rewrite EC; lia|split; auto].
+  - intros k' v' H Hn. apply in_put in H. destruct H as [[-> ->]|H]; [|eauto].
+    rewrite key_id_app by auto. rewrite app_length. split; lia.
+  - intros k1 v1 k2 v2 H1 H2 X1 X2 E. apply in_put in H1. apply in_put in H2.
+    destruct H1 as [[-> ->]|H1]; [congruence|]. destruct H2 as [[-> ->]|H2]; [congruence|]. eauto.
+Qed.
+
+(* Deleting anything but the counter keeps it *)
+Lemma fresh_del m k : fresh m -> k <> cbid_key -> fresh (OMap.del m k).
+Proof.
+  intros (C0 & I1 & I2 & I3) N.
+  assert (EC : ctr (OMap.del m k) = ctr m) by (unfold ctr; rewrite get_del_other; auto).
+  unfold fresh. rewrite EC. split; auto. split; [|split].
+  - intros k' v' H Hi. apply in_del in H. destruct (I1 _ _ H Hi) as (Lv & Ev & Pv).
+    split; [eapply live_mono; [|exact Lv]; rewrite EC; lia|split; auto].
+  - intros k' v' H Hn. apply in_del in H. eauto.
+  - intros k1 v1 k2 v2 H1 H2. apply in_del in H1. apply in_del in H2. eauto.
+Qed.
+
+(* CreateBucket at the level of the merged map *)
+Definition create_map (m : kvs) (id n : key) : kvs :=
+  let nid := be32_enc (ctr m + 1) in OMap.put (OMap.put m cbid_key nid) (bidx_key id n) nid.
+
+Lemma bidx_key_ne_cbid id n : length id = 4%nat -> be32_dec id < id_bound -> bidx_key id n <> cbid_key.
+Proof.
+  intros L B E. do 5 (destruct id as [|? id]; simpl in L; try discriminate).
+  unfold bidx_key, cbid_key, bidx in E. simpl in E. injection E as -> -> -> -> _.
+  vm_compute in B. discriminate.
+Qed.
+
+Lemma is_index_bidx_key id n : length id = 4%nat -> be32_dec id < id_bound ->
+  is_index (bidx_key id n) = true.
+Proof.
+  intros L B. unfold is_index. unfold bidx_key at 1. rewrite strip_prefix_app.
+  destruct (keqb (bidx_key id n) cbid_key) eqn:E; auto.
+  apply keqb_eq in E. exfalso. revert E. apply bidx_key_ne_cbid; auto.
+Qed.
+
+Lemma is_index_cbid : is_index cbid_key = false.
+Proof. reflexivity. Qed.
+
+Lemma ctr_create m id n : length id = 4%nat -> be32_dec id < id_bound -> 0 <= ctr m + 1 < 4294967296 ->
+  ctr (create_map m id n) = ctr m + 1.
+Proof.
+  intros L B R. unfold create_map. rewrite ctr_put_other by (apply bidx_key_ne_cbid; auto).
+  unfold ctr at 1. rewrite get_put_same. apply be32_roundtrip; auto.
+Qed.
+
+(* CreateBucket keeps the invariant ... *)
+Lemma fresh_create m id n : fresh m -> live m id -> ctr m + 1 < id_bound -> fresh (create_map m id n).
+Proof.
+  intros (C0 & I1 & I2 & I3) (L & B & F) Bd.
+  assert (Bi : be32_dec id < id_bound) by lia.
+  assert (R : 0 <= ctr m + 1 < 4294967296) by (unfold id_bound in Bd; lia).
+  pose proof (ctr_create m id n L Bi R) as EC.
+  set (nid := be32_enc (ctr m + 1)) in *.
+  destruct (enc_shape (ctr m + 1)) as [Tn Ln]. fold nid in Tn, Ln.
+  assert (Dn : be32_dec nid = ctr m + 1) by (apply be32_roundtrip; auto).
+  assert (Fn : nth 0 nid 0 <> 98) by (apply enc_first; lia).
+  assert (Mem : forall k v, In (k, v) (create_map m id n) ->
+            (k = bidx_key id n /\ v = nid) \/ (k = cbid_key /\ v = nid) \/ In (k, v) m).
+  { intros k v H. unfold create_map in H. fold nid in H. apply in_put in H. destruct H as [H|H]; auto.
+    apply in_put in H. tauto. }
+  unfold fresh. rewrite EC. split; [lia|]. split; [|split].
+  - intros k v H Hi. destruct (Mem _ _ H) as [[-> ->]|[[-> ->]|H']].
+    + rewrite Tn. split; [|split]; auto.
+      * unfold live. rewrite EC. repeat split; auto; lia.
+      * assert (SK : forall y : key, skipn 4 (bidx ++ y) = y) by reflexivity.
+        unfold bidx_key. rewrite SK, key_id_app by auto. lia.
+    + rewrite is_index_cbid in Hi. discriminate.
+    + destruct (I1 _ _ H' Hi) as (Lv & Ev & Pv). split; [|split]; auto; [|lia].
+      eapply live_mono; eauto. lia.
+  - intros k v H Hn. destruct (Mem _ _ H) as [[-> ->]|[[-> ->]|H']].
+    + unfold bidx_key in Hn. rewrite strip_prefix_app in Hn. discriminate.
+    + vm_compute in Hn. discriminate.
+    + destruct (I2 _ _ H' Hn). split; auto. lia.
+  - intros k1 v1 k2 v2 H1 H2 X1 X2 E.
+    assert (Old : forall k v, In (k, v) m -> is_index k = true -> v <> nid).
+    { intros k v H Hi ->. destruct (I1 _ _ H Hi) as [(_ & Bv & _) _]. rewrite Tn, Dn in Bv. lia. }
+    destruct (Mem _ _ H1) as [[-> ->]|[[-> ->]|H1']]; destruct (Mem _ _ H2) as [[-> ->]|[[-> ->]|H2']];
+      auto; try (rewrite is_index_cbid in *; discriminate).
+    + exfalso. apply (Old _ _ H2' X2). auto.
+    + exfalso. apply (Old _ _ H1' X1). auto.
+    + eauto.
+Qed.
+
+(* ... and the id it allocates was not in use: no index entry points to it and
+   no key lives under its prefix *)
+Lemma create_id_unused m : fresh m -> ctr m + 1 < id_bound ->
+  let nid := be32_enc (ctr m + 1) in
+  (forall k v, In (k, v) m -> is_index k = true -> to_id v <> nid) /\
+  under nid m = [] /\ under (bidx ++ nid) m = [].
+Proof.
+  intros (C0 & I1 & I2 & I3) Bd nid.
+  assert (R : 0 <= ctr m + 1 < 4294967296) by (unfold id_bound in Bd; lia).
+  destruct (enc_shape (ctr m + 1)) as [Tn Ln]. fold nid in Tn, Ln.
+  assert (Dn : be32_dec nid = ctr m + 1) by (apply be32_roundtrip; auto).
+  assert (Fn : nth 0 nid 0 <> 98) by (apply enc_first; lia).
+  assert (E0 : forall p, (forall x v, In (p ++ x, v) m -> False) -> under p m = []).
+  { intros p H. destruct (under p m) as [|[x v] r] eqn:E; auto. exfalso.
+    apply (H x v). apply under_in. rewrite E. left. auto. }
+  repeat split.
+  - intros k v H Hi E. destruct (I1 _ _ H Hi) as [(_ & Bv & _) _]. rewrite E, Dn in Bv. lia.
+  - apply E0. intros x v H.
+    assert (Hn : strip_prefix bidx (nid ++ x) = None).
+    { apply strip_bidx_first. destruct nid; simpl in *; [discriminate|auto]. }
+    destruct (I2 _ _ H Hn) as [_ Bk]. rewrite key_id_app, Dn in Bk by auto. lia.
+  - apply E0. intros x v H.
+    assert (Hi : is_index ((bidx ++ nid) ++ x) = true).
+    { rewrite <- app_assoc. apply (is_index_bidx_key nid x); auto. lia. }
+    destruct (I1 _ _ H Hi) as (_ & _ & Pv).
+    assert (SK : forall y : key, skipn 4 (bidx ++ y) = y) by reflexivity.
+    rewrite <- app_assoc, SK in Pv. rewrite key_id_app, Dn in Pv by auto. lia.
+Qed.
+
+(* ---------------------------------------------------------------- transactions and histories *)
+
+Lemma meta_live m : fresh m -> live m meta_id.
+Proof. intros (C0 & _). unfold live, meta_id. simpl. repeat split; auto; lia. Qed.
+
+Lemma ctr_fetch t : tx_ok t ->
+  match fetch t cbid_key with Some v => be32_dec v | None => 0 end = ctr (view t).
+Proof. intros T. unfold ctr. rewrite read_through_layers by auto. auto. Qed.
+
+Lemma view_b_create t id n t' : tx_ok t -> b_create t id n = (t', E_OK) ->
+  t_w t = true /\ tx_ok t' /\ view t' = create_map (view t) id n.
+Proof.
+  intros T. unfold b_create.
+  destruct (t_w t) eqn:W; cbn [negb]; [|discriminate].
+  destruct (is_nil n); [discriminate|].
+  destruct (has_key t (bidx_key id n)); [discriminate|].
+  rewrite (ctr_fetch t T). intros [= <-].
+  assert (T1 : tx_ok (put_key t cbid_key (be32_enc (ctr (view t) + 1)))) by (apply put_key_ok; auto).
+  split; [auto|split].
+  - apply put_key_ok; auto.
+  - unfold create_map. rewrite !view_put_key by auto. auto.
+Qed.
+
+Lemma resolve_live path : forall t id, tx_ok t -> fresh (view t) -> live (view t) id ->
+  forall id', resolve t id path = Some id' -> live (view t) id'.
+Proof.
+  induction path as [|n path IH]; intros t id T Fr L id'; simpl.
+  - intros [= <-]. auto.
+  - destruct (fetch t (bidx_key id n)) as [v|] eqn:Fe; [|discriminate].
+    apply IH; auto.
+    rewrite read_through_layers in Fe by auto. apply get_in in Fe.
+    destruct Fr as (C0 & I1 & _). destruct L as (Ll & Bl & _).
+    apply (I1 _ _ Fe). apply is_index_bidx_key; auto. lia.
+Qed.
+
+(* bucket operations addressed by path from the root bucket *)
+Inductive bop :=
+| BPut (p : list key) (k : key) (v : val)
+| BDel (p : list key) (k : key)
+| BCreate (p : list key) (n : key).
+
+Definition bstep (t : txn) (o : bop) : txn :=
+  match o with
+  | BPut p k v => match resolve t meta_id p with Some id => fst (b_put t id k v) | None => t end
+  | BDel p k => match resolve t meta_id p with Some id => fst (b_delete t id k) | None => t end
+  | BCreate p n =>
+    match resolve t meta_id p with
+    | Some id => if ctr (view t) + 1 <? id_bound then fst (b_create t id n) else t
+    | None => t
+    end
+  end.
+
+Lemma bstep_fresh t o : tx_ok t -> fresh (view t) -> tx_ok (bstep t o) /\ fresh (view (bstep t o)).
+Proof.
+  intros T Fr. pose proof (meta_live _ Fr) as ML.
+  destruct o as [p k v|p k|p n]; simpl.
+  - destruct (resolve t meta_id p) as [id|] eqn:R; auto.
+    pose proof (resolve_live p t meta_id T Fr ML id R) as L.
+    unfold b_put. destruct (t_w t) eqn:W; simpl; auto. destruct (is_nil k); simpl; auto.
+    split; [apply put_key_ok; auto|]. unfold bucketized. rewrite view_put_key by auto. apply fresh_put; auto.
+  - destruct (resolve t meta_id p) as [id|] eqn:R; auto.
+    pose proof (resolve_live p t meta_id T Fr ML id R) as L.
+    unfold b_delete. destruct (t_w t) eqn:W; simpl; auto. destruct (is_nil k); simpl; auto.
+    split; [apply delete_key_ok; auto|]. unfold bucketized. rewrite view_delete_key by auto.
+    apply fresh_del; auto. intros E.
+    assert (NB : strip_prefix bidx (id ++ k) = None).
+    { apply strip_bidx_first. destruct L as (Ll & _ & F). destruct id; simpl in *; [discriminate|auto]. }
+    rewrite E in NB. vm_compute in NB. discriminate.
+  - destruct (resolve t meta_id p) as [id|] eqn:R; auto.
+    pose proof (resolve_live p t meta_id T Fr ML id R) as L.
+    destruct (Z.ltb_spec (ctr (view t) + 1) id_bound) as [Bd|]; auto.
+    destruct (b_create t id n) as [t' c] eqn:E. simpl.
+    destruct (Z.eq_dec c E_OK) as [->|N].
+    + destruct (view_b_create t id n t' T E) as (W & T' & V). split; auto. rewrite V. apply fresh_create; auto.
+    + assert (t' = t); [|subst; auto].
+      revert E. unfold b_create. destruct (negb (t_w t)); [intros [= <- _]; auto|].
+      destruct (is_nil n); [intros [= <- _]; auto|].
+      destruct (has_key t (bidx_key id n)); [intros [= <- _]; auto|].
+      intros [= _ <-]. exfalso. apply N. reflexivity.
+Qed.
+
+Theorem fresh_history ops : forall t, tx_ok t -> fresh (view t) ->
+  tx_ok (fold_left bstep ops t) /\ fresh (view (fold_left bstep ops t)).
+Proof.
+  induction ops as [|o ops IH]; intros t T Fr; simpl; auto.
+  destruct (bstep_fresh t o T Fr). apply IH; auto.
+Qed.
+
+(* CreateBucket never reuses a live prefix, at any point of any history *)
+Theorem create_never_reuses ops t0 id n t' :
+  tx_ok t0 -> fresh (view t0) ->
+  let t := fold_left bstep ops t0 in
+  live (view t) id -> ctr (view t) + 1 < id_bound -> b_create t id n = (t', E_OK) ->
+  let nid := be32_enc (ctr (view t) + 1) in
+  bucket_subs t' id = OMap.put (bucket_subs t id) n nid /\
+  bucket_keys t nid = [] /\ bucket_subs t nid = [] /\
+  (forall k v, In (k, v) (view t) -> is_index k = true -> to_id v <> nid) /\
+  fresh (view t').
+Proof.
+  intros T0 F0 t L Bd E nid.
+  destruct (fresh_history ops t0 T0 F0) as [T Fr]. fold t in T, Fr.
+  destruct (view_b_create t id n t' T E) as (W & T' & V).
+  destruct (create_id_unused (view t) Fr Bd) as (U1 & U2 & U3).
+  assert (S5 : fresh (view t')) by (rewrite V; apply fresh_create; auto).
+  assert (S1 : bucket_subs t' id = OMap.put (bucket_subs t id) n nid).
+  { unfold bucket_subs. rewrite V. unfold create_map. fold nid.
+    destruct L as (Ll & Bl & Fl). destruct Fr as (C0 & _).
+    unfold bidx_key. rewrite app_assoc. rewrite under_put_same.
+    + rewrite under_put_other; auto. { apply view_sorted; auto. }
+      destruct (strip_prefix (bidx ++ id) cbid_key) as [x|] eqn:S; auto. exfalso.
+      apply strip_prefix_spec in S. rewrite <- app_assoc in S.
+      apply (bidx_key_ne_cbid id x); auto. lia.
+    + apply put_sorted, view_sorted; auto. }
+  exact (conj S1 (conj U2 (conj U3 (conj U1 S5)))).
+Qed.
+
+(* ================================================================ DeleteBucket of a bucket without nested buckets *)
+
+Definition prefixed (cid : key) (l : kvs) : kvs := map (fun e => (cid ++ fst e, snd e)) l.
+
+Lemma view_fold_delete cid l : forall t, tx_ok t -> t_w t = true ->
+  let t' := fold_left (fun t e => delete_key t (bucketized cid (fst e))) l t in
+  tx_ok t' /\ t_w t' = true /\ view t' = del_all (view t) (prefixed cid l).
+Proof.
+  induction l as [|e l IH]; intros t T W; cbn [fold_left]; [cbv zeta; auto|].
+  destruct (IH (delete_key t (bucketized cid (fst e))) (delete_key_ok _ _ T) W) as (A & B & C).
+  cbv zeta. split; [auto|split; [auto|]]. rewrite C. rewrite view_delete_key by auto. reflexivity.
+Qed.
+
+Lemma under_del_all_other p l : forall m : kvs, sorted m ->
+  (forall e, In e l -> strip_prefix p (fst e) = None) -> under p (del_all m l) = under p m.
+Proof.
+  unfold del_all. induction l as [|e l IH]; intros m S H; simpl; auto.
+  rewrite IH; auto.
+  - apply under_del_other; auto. apply H. left; auto.
+  - apply del_sorted; auto.
+  - intros x Hx. apply H. right; auto.
+Qed.
+
+Lemma has_prefixed cid (l : kvs) x : OMap.has (prefixed cid l) (cid ++ x) = OMap.has l x.
+Proof.
+  unfold OMap.has. induction l as [|[k v] l IH]; simpl; auto.
+  assert (E : keqb (cid ++ x) (cid ++ k) = keqb x k).
+  { unfold keqb. rewrite kcmp_prefix. auto. }
+  rewrite E. destruct (keqb x k); auto.
+Qed.
+
+Theorem delete_childless_bucket t id n v t' : tx_ok t -> t_w t = true ->
+  fetch t (bidx_key id n) = Some v ->
+  let cid := to_id v in
+  nth 0 cid 0 <> 98 -> bucket_subs t cid = [] ->
+  b_delete_bucket t id n = (t', E_OK) ->
+  view t' = OMap.del (del_all (view t) (prefixed cid (bucket_keys t cid))) (bidx_key id n) /\
+  bucket_keys t' cid = [] /\ fetch t' (bidx_key id n) = None /\
+  (forall p, (forall x, strip_prefix p (cid ++ x) = None) -> strip_prefix p (bidx_key id n) = None ->
+     under p (view t') = under p (view t)).
+Proof.
+  intros T W Fe cid Fc Ch. unfold b_delete_bucket. rewrite W, Fe. cbn [negb]. fold cid.
+  pose proof (view_sorted t T) as Sv.
+  destruct (view_fold_delete cid (bucket_keys t cid) t T W) as (Ta & Wa & Va).
+  set (ta := fold_left (fun t e => delete_key t (bucketized cid (fst e))) (bucket_keys t cid) t) in *.
+  assert (Sub : bucket_subs ta cid = []).
+  { unfold bucket_subs. rewrite Va. rewrite under_del_all_other; auto.
+    intros e He. unfold prefixed in He. apply in_map_iff in He. destruct He as (e0 & <- & _). simpl.
+    assert (Lc : length cid = 4%nat).
+    { unfold cid, to_id. rewrite firstn_length, app_length. apply Nat.min_l. simpl. lia. }
+    destruct cid as [|a c]; [discriminate|]. cbn [nth] in Fc.
+    apply (first_byte_disjoint 98 ([105; 100; 120] ++ a :: c) a (c ++ fst e0)). intros E. apply Fc. auto. }
+  assert (Rec : delete_rec (S (length (view t))) t [cid] = ta).
+  { cbn [delete_rec]. fold ta. rewrite Sub. simpl. destruct (length (view t)); reflexivity. }
+  rewrite Rec. intros [= <-].
+  assert (Sd : sorted (del_all (view t) (prefixed cid (bucket_keys t cid)))) by (apply sorted_del_all; auto).
+  assert (V' : view (delete_key ta (bidx_key id n)) =
+               OMap.del (del_all (view t) (prefixed cid (bucket_keys t cid))) (bidx_key id n)).
+  { rewrite view_delete_key by auto. rewrite Va. auto. }
+  split; [exact V'|]. split; [|split].
+  - unfold bucket_keys at 1. rewrite V'.
+    destruct (under cid (OMap.del (del_all (view t) (prefixed cid (bucket_keys t cid))) (bidx_key id n)))
+      as [|[x vx] r] eqn:E; auto. exfalso.
+    assert (Hin : In (x, vx) (under cid (OMap.del (del_all (view t) (prefixed cid (bucket_keys t cid))) (bidx_key id n))))
+      by (rewrite E; left; auto).
+    apply under_in in Hin. apply in_del in Hin.
+    apply (in_get _ _ _ Sd) in Hin. rewrite get_del_all in Hin. rewrite has_prefixed in Hin.
+    destruct (OMap.has (bucket_keys t cid) x) eqn:Hh; [discriminate|].
+    unfold OMap.has in Hh. unfold bucket_keys in Hh. rewrite get_under in Hh by auto.
+    rewrite Hin in Hh. discriminate.
+  - rewrite read_through_layers by (apply delete_key_ok; auto). rewrite V'. apply get_del_same.
+  - intros p Hp Hb. rewrite V'. rewrite under_del_other by auto.
+    apply under_del_all_other; auto.
+    intros e He. unfold prefixed in He. apply in_map_iff in He. destruct He as (e0 & <- & _). simpl. apply Hp.
+Qed.
